@@ -1292,6 +1292,19 @@ class Evaluator:
             return VStr(t, is_bytes=(name == "encode"))
         if name == "find":
             sub = args[0].t
+            if z3.is_string_value(sub) and len(sub.as_string()) == 1:
+                # single-character needle: the result is characterised pointwise (range, hit, minimality, absence)
+                n = z3.Length(t)
+                lo = args[1].t if len(args) > 1 else I(0)
+                hi = args[2].t if len(args) > 2 else n
+                lo_n = z3.If(lo < 0, I(0), lo)
+                hi_n = z3.If(hi > n, n, hi)
+                r = self.path.fresh("find", z3.IntSort())
+                k = z3.Const("k!find", z3.IntSort())
+                at = lambda i: z3.SubString(t, i, 1)
+                self.path.add_axiom(z3.Or(r == -1, z3.And(r >= lo_n, r < hi_n, at(r) == sub)))
+                self.path.add_axiom(z3.ForAll([k], z3.Implies(z3.And(k >= lo_n, k < z3.If(r == -1, hi_n, r)), at(k) != sub), patterns=[at(k)]))
+                return VInt(r)
             if len(args) == 1:
                 return VInt(z3.IndexOf(t, sub, I(0)))
             start = args[1].t
